@@ -818,3 +818,106 @@ func c03CyclicLoad(r *rng) string {
 	}
 	return sb.String()
 }
+
+// ---- scripts that terminate by construction ---------------------------------------------------------------------
+// Straight-line code, for loops with constant bounds, recursion on a counter that decreases from a literal.  Nothing
+// here can run for long, so an entry point or host call that does not return has WEDGED the host (a deadlock, a
+// lost wake-up ...), which is as bad as a crash.  The library exercises every native that calls back into the VM
+// (builtins.go: slices.SortFunc and slices.SortStableFunc run the script comparator through VM.Func; time.Sleep
+// yields through VM.Yield -> Call -> Func), with comparators that are functions, lambdas, bound methods, that
+// panic, sleep, recurse or sort again, on 0, 1, 2 and many elements.
+
+const c03TermLib = `type Cmp struct { k int }
+func (c *Cmp) less(a int, b int) bool { return a*c.k < b*c.k }
+func less(a int, b int) bool { return a < b }
+func greater(a int, b int) bool { return b < a }
+func lessStr(a string, b string) bool { return a < b }
+func lessPanic(a int, b int) bool { if a == 3 { panic("cmp 3") }; return a < b }
+func lessNested(a int, b int) bool { t := []int{3, 1, 2}; slices.SortFunc(t, less); return a < b }
+func lessNested2(a int, b int) bool { t := []int{2, 1}; slices.SortStableFunc(t, lessNested); return a < b }
+func lessSleep(a int, b int) bool { time.Sleep(1); return a < b }
+func down(n int) int { if n <= 0 { return 0 }; return 1 + down(n-1) }
+func lessDeep(a int, b int) bool { return down(5) + a < down(5) + b }
+func sort0() []int { s := []int{}; slices.SortFunc(s, less); return s }
+func sort1() []int { s := []int{7}; slices.SortFunc(s, less); return s }
+func sort2() []int { s := []int{7, 3}; slices.SortFunc(s, less); return s }
+func sortMany() []int { s := []int{9, 3, 7, 1, 8, 2, 6, 4, 5, 0, 11, 15, 13, 12, 14, 10, 19, 17, 16, 18}; slices.SortFunc(s, greater); return s }
+func sortStable() []int { s := []int{4, 2, 1, 3}; slices.SortStableFunc(s, less); return s }
+func sortStable0() []int { s := []int{}; slices.SortStableFunc(s, less); return s }
+func sortPanics() []int { s := []int{5, 3, 1}; slices.SortFunc(s, lessPanic); return s }
+func sortNested() []int { s := []int{5, 3, 1, 4}; slices.SortFunc(s, lessNested); return s }
+func sortNested2() []int { s := []int{5, 3, 1}; slices.SortFunc(s, lessNested2); return s }
+func sortSleep() []int { s := []int{2, 1}; slices.SortStableFunc(s, lessSleep); return s }
+func sortDeep() []int { s := []int{2, 1, 3}; slices.SortFunc(s, lessDeep); return s }
+func sortLambda() []int { s := []int{3, 1, 2}; slices.SortFunc(s, func(a int, b int) bool { return a < b }); return s }
+func sortMethod() []int { c := &Cmp{k: 2}; s := []int{3, 1, 2}; slices.SortFunc(s, c.less); return s }
+func sortLoop() int { n := 0; for i := 0; i < 5; i++ { s := []int{3, 2, 1}; slices.SortStableFunc(s, greater); n += s[0] }; return n }
+func sortStr() []string { s := []string{"b", "a", "c"}; slices.SortFunc(s, lessStr); return s }
+func sortPlain() []int { s := []int{3, 1, 2}; slices.Sort(s); return s }
+func nap() int { time.Sleep(1); return 1 }
+func naps() int { n := 0; for i := 0; i < 3; i++ { time.Sleep(2); n++ }; return n }
+`
+
+var c03TermFuncs = []string{"sort0", "sort1", "sort2", "sortMany", "sortStable", "sortStable0", "sortPanics", "sortNested", "sortNested2", "sortSleep", "sortDeep", "sortLambda", "sortMethod", "sortLoop", "sortStr", "sortPlain", "nap", "naps"}
+
+// c03TermJob: Eval or Load of the library plus some top-level / init / main activity, then host calls
+func c03TermJob(r *rng, id int, opts int) c03Job {
+	j := c03Job{ID: id, Opts: opts, MustTerminate: true, Fname: "eval"}
+	imports := "import \"golang.org/x/exp/slices\"\nimport \"time\"\nimport \"fmt\"\n"
+	// a few calls made by the script itself
+	var acts []string
+	for k := r.intn(4); k > 0; k-- {
+		f := pick(r, c03TermFuncs)
+		acts = append(acts, pick(r, []string{f + "()", "fmt.Sprint(" + f + "())", "t" + fmt.Sprint(k) + " := " + f + "(); _ = t" + fmt.Sprint(k)}))
+	}
+	globals := "cmpObj := &Cmp{k: 1}\nboundLess := cmpObj.less\nlambdaLess := func(a int, b int) bool { return b < a }\n"
+	switch r.intn(4) {
+	case 0: // Eval of a snippet: definitions, then top-level code
+		j.Entry, j.Class = "eval", "term-eval"
+		j.Src = imports + c03TermLib + globals + strings.Join(acts, "\n") + "\n"
+		if r.chance(40) {
+			j.Src += pick(r, []string{"sortMany()", "sort2(), nap()", "boundLess(1, 2)", "down(10)"}) + "\n" // values for the host
+		}
+		j.Files = map[string]string{}
+	case 1: // Eval of a package main source
+		j.Entry, j.Class = "eval", "term-eval-package"
+		j.Src = "package main\n" + imports + c03TermLib + "var cmpObj = &Cmp{k: 1}\nvar boundLess = cmpObj.less\nvar lambdaLess = func(a int, b int) bool { return b < a }\nfunc init() {\n" + strings.Join(acts, "\n") + "\n}\nfunc main() {\n" + strings.Join(acts, "\n") + "\n}\n"
+		j.Files = map[string]string{}
+	case 2: // Load: top-level code and init
+		j.Entry, j.Class, j.Arg = "load", "term-load", "main"
+		j.Files = map[string]string{"main/main.go": "package main\n" + imports + c03TermLib + "var cmpObj = &Cmp{k: 1}\nvar boundLess = cmpObj.less\nvar lambdaLess = func(a int, b int) bool { return b < a }\nfunc init() {\n" + strings.Join(acts, "\n") + "\n}\nfunc main() {\n" + strings.Join(acts, "\n") + "\n}\n" +
+			pick(r, []string{"", "var topSorted = sortMany()\n", "var topNap = nap()\n", "var topNested = sortNested()\n"})}
+	default: // Load of a single file, the library in an imported script package
+		j.Entry, j.Class, j.Arg = "load", "term-load-file", "main/main.go"
+		j.Files = map[string]string{
+			"main/main.go": "package main\nimport \"tl\"\nfunc main() { tl.Run() }\nfunc sortMany() []int { return tl.SortMany() }\nfunc less(a int, b int) bool { return a < b }\n",
+			"tl/tl.go":     "package tl\n" + imports + c03TermLib + "var cmpObj = &Cmp{k: 1}\nvar boundLess = cmpObj.less\nvar lambdaLess = func(a int, b int) bool { return b < a }\nfunc Run() {\n" + strings.Join(acts, "\n") + "\n}\nfunc SortMany() []int { return sortMany() }\nfunc init() { Run() }\n",
+		}
+	}
+	pfx := "main."
+	if j.Class == "term-load-file" {
+		pfx = "tl." // the library lives in the imported package
+	}
+	// host calls: Call by name, Func on a function value obtained with Get, on a bound method, on a lambda, on the
+	// natives themselves with a script comparator, and on a host native that calls back into the VM
+	for k := 1 + r.intn(5); k > 0; k-- {
+		switch r.intn(10) {
+		case 0, 1, 2, 3:
+			j.Calls = append(j.Calls, c03Call{Kind: "call", Name: pfx + pick(r, c03TermFuncs), XRets: 1})
+		case 4:
+			j.Calls = append(j.Calls, c03Call{Kind: "func", Fn: c03Arg{K: "global", S: pfx + pick(r, c03TermFuncs)}, XRets: 1})
+		case 5:
+			j.Calls = append(j.Calls, c03Call{Kind: "func", Fn: c03Arg{K: "global", S: pfx + pick(r, []string{"boundLess", "lambdaLess", "less", "lessNested", "lessSleep"})}, XRets: 1,
+				Args: []c03Arg{{K: "int", I: r.intn(5)}, {K: "int", I: r.intn(5)}}})
+		case 6, 7:
+			j.Calls = append(j.Calls, c03Call{Kind: pick(r, []string{"func", "call"}), Name: pick(r, []string{"golang.org/x/exp/slices.SortFunc", "golang.org/x/exp/slices.SortStableFunc"}),
+				Fn:   c03Arg{K: "global", S: pick(r, []string{"golang.org/x/exp/slices.SortFunc", "golang.org/x/exp/slices.SortStableFunc"})},
+				Args: []c03Arg{{K: "intslice", I: pick(r, []int{0, 1, 2, 3, 17})}, {K: "global", S: pfx + pick(r, []string{"less", "greater", "lessPanic", "lessNested", "lessSleep", "boundLess", "lambdaLess"})}}})
+		case 8:
+			j.Calls = append(j.Calls, c03Call{Kind: "func", Fn: c03Arg{K: "nativecb", S: pfx + pick(r, []string{"less", "lessNested", "lessSleep"})}, XRets: 1})
+		default:
+			j.Calls = append(j.Calls, c03Call{Kind: "call", Name: pick(r, []string{"time.Sleep", "main.main", "main.down"}), Args: []c03Arg{{K: "float", F: 1}}})
+		}
+	}
+	return j
+}
